@@ -793,6 +793,18 @@ loop:
 					}
 
 					sc.writeReset(fr.Stream(), RefusedStreamError)
+					markClosed(fr.Stream())
+
+					// The refused request's header block still has to go
+					// through the decoder (and its DATA through the connection
+					// window). Skipping it left the dynamic table out of step,
+					// so the next request either failed with COMPRESSION_ERROR
+					// or, worse, decoded to another request's fields. The
+					// frames that follow on this id take the same path above.
+					if err := sc.discardFrame(fr); err != nil {
+						sc.writeError(nil, err)
+						break loop
+					}
 
 					continue
 				}
